@@ -454,6 +454,12 @@ def execute(prog):
         out["violation"] = core.violation(
             ID, "progress", "step-cap", "run exceeded %d steps" % STEP_CAP)
         return out
+    if s.abort_reason == "deadlock":
+        out["violation"] = core.violation(
+            ID, "deadlock", "library-locks",
+            "threads blocked for ever on locks the library takes: %r" % (
+                s.blocked_graph,), dict(trace=s.trace, events=s.events[-60:]))
+        return out
     if s.abort_reason:
         raise core.HarnessError("concurrent phase aborted: %s (%r)" % (
             s.abort_reason, s.blocked_graph))
